@@ -101,6 +101,12 @@ pub fn corr(ctx: &mut Ctx) {
         ctx.count(&format!("m={}", m));
         let mut fy = FYshuffle::new(m);
         ctx.op(&format!("fy new f {}", m));
+        if c % 3 == 1 {
+            // reset right after construction (a new instance has lastidx = m; its first draw otherwise takes the wrap-around branch)
+            fy.reset();
+            ctx.line("fy reset f", &join(fy.get_values()));
+            ctx.count("op=reset right after new");
+        }
         let mut script = Vec::new();
         let total = ndraw_before + 2 * m + ctx.rng.below(m as u64 + 1) as usize;
         for _ in 0..total {
@@ -181,6 +187,42 @@ pub fn corr(ctx: &mut Ctx) {
         if m > 1 {
             ctx.mark_nontrivial();
         }
+    }
+    // LARGE sizes (a threshold above which another code path is taken shows only here): few draws hitting the same positions,
+    // reset, then the same words as a fresh instance; and one full block. Implementation only.
+    for m in if ctx.quick() { vec![65_536usize, 65_537, 1 << 20, (1 << 20) + 1] } else { vec![65_535usize, 65_536, 65_537, 1 << 20, (1 << 20) + 1, 1 << 22, (1 << 24) + 3] } {
+      for initial_reset in [false, true] {
+        ctx.begin_case(&format!("fy large m={} reset_right_after_new={}", m, initial_reset));
+        ctx.mark_nontrivial();
+        ctx.count("op=large m");
+        let mut fy = FYshuffle::new(m);
+        if initial_reset { fy.reset(); }      // (a new instance has lastidx = m: its first draw otherwise goes through the wrap-around branch)
+        // words giving offsets 2, 1 (=> position 2 twice), 0, m-1-k ... : small k / 2^52 fractions scaled to the remaining length
+        let off_word = |off: usize, n: usize| -> u64 { let k = ((off as f64 + 0.5) / n as f64 * 4503599627370496.0) as u64; k << 12 };
+        let pre: Vec<u64> = vec![off_word(2, m), off_word(1, m - 1), off_word(0, m - 2), off_word(m - 4, m - 3), off_word(5, m - 4), off_word(3, m - 5)];
+        let mut r0 = Scripted { words: pre.clone(), pos: 0 };
+        for _ in 0..pre.len() { fy.next(&mut r0); }
+        fy.reset();
+        let words: Vec<u64> = (0..64).map(|i| if i < 6 { pre[(i + 1) % 6] } else { word(ctx) }).collect();
+        let mut r1 = Scripted { words: words.clone(), pos: 0 };
+        let mut r2 = Scripted { words: words.clone(), pos: 0 };
+        let mut fresh = FYshuffle::new(m);
+        let a: Vec<usize> = (0..words.len()).map(|_| fy.next(&mut r1)).collect();
+        let b: Vec<usize> = (0..words.len()).map(|_| fresh.next(&mut r2)).collect();
+        if a != b {
+            ctx.oracle_failure(serde_json::json!({"kind":"impl_violates_property","what":"draws after reset depend on history (large m)","m":m,"after_reset":a,"fresh":b}));
+        }
+        // a full block after another reset is a permutation and equals get_values
+        fy.reset();
+        let mut g = Xoshiro256PlusPlus::seed_from_u64(ctx.rng.next());
+        let mut seen = vec![false; m];
+        let mut ok = true;
+        let mut blockv: Vec<usize> = Vec::with_capacity(m);
+        for _ in 0..m { let k = fy.next(&mut g); if k >= m || seen[k] { ok = false; break; } seen[k] = true; blockv.push(k); }
+        if !ok || &blockv != fy.get_values() {
+            ctx.oracle_failure(serde_json::json!({"kind":"impl_violates_property","what":"m draws after reset are not a permutation / differ from get_values (large m)","m":m}));
+        }
+      }
     }
     // many resets between the draws that wrote the array and the block under test: a lazy reset that keeps a
     // generation or reset counter in a narrow integer fails exactly at 2^8 / 2^16 resets (implementation only)
